@@ -89,7 +89,7 @@ func runRecipe(root, repo string, r *Recipe) (bool, string) {
 	// keep the transcript short: drop pterm log noise
 	var keep []string
 	for _, l := range strings.Split(out, "\n") {
-		if strings.Contains(l, "VIOLATED") || strings.HasPrefix(l, "---") || strings.HasPrefix(l, "ok") || strings.HasPrefix(l, "FAIL") || strings.Contains(l, "panic") || strings.Contains(l, "REPLAY") {
+		if strings.Contains(l, "VIOLATED") || strings.HasPrefix(l, "---") || strings.HasPrefix(l, "ok") || strings.HasPrefix(l, "FAIL") || strings.Contains(l, "panic") || strings.Contains(l, "REPLAY") || strings.Contains(l, "TempDir") || strings.Contains(l, "[build failed]") || strings.HasPrefix(l, "#") {
 			keep = append(keep, l)
 		}
 	}
